@@ -1047,4 +1047,99 @@ theorem streamCombined_contents (t : Text) (sm : SMap) (n : Text) (os : Option T
         obtain ⟨j, hj⟩ := annSC_mem _ s cc q
         exact Or.inr (Or.inr ⟨j, hj⟩)
 
+/-! ### the state at a delivered chunk, for either column setting -/
+
+/-- every chunk the combinator delivers, with the state in which it was produced: the table invariant, the recorded knowledge about the
+inner map, and how the tables at that moment sit inside the final ones -/
+theorem comb_chunk_at (cfg : CombCfg) (hI : MapIdxOK cfg.innerMap) (os : Option Text) (P C : List Ev) (Tin : Text)
+    (hP : ∀ e ∈ P, e.isChunk = false) (cN : ∀ e ∈ C, e.isChunk = true) (hdecl : DeclOK 0 0 (P ++ C))
+    (honce : OnceInner cfg.innerName P) (hTin : ∀ k c, Ev.source k cfg.innerName c ∈ P → (os.or c).getD [] = Tin)
+    (hgl : ∀ m ∈ chunkMs (streamSM Tin cfg.innerMap ⟨cfg.columns, false⟩).evs, 1 ≤ m.gl) :
+    ∀ t' mm, Ev.chunk t' mm ∈ combFold cfg { innerSource := os } (P ++ C) →
+      ∃ m st' S0 N0 k c, Ev.chunk t' m ∈ C ∧ mm.gl = m.gl ∧ mm.gc = m.gc
+        ∧ KInv cfg st' S0 N0 (annS P) ∧ InnerRec st' k (streamSM Tin cfg.innerMap ⟨cfg.columns, false⟩).evs (os.or c)
+        ∧ st'.nameIndexValueMapping = annN P
+        ∧ (annS P)[k]? = some cfg.innerName
+        ∧ Ev.chunk t' mm ∈ (combOnChunk cfg st' t' m).2
+        ∧ (S0 ++ annS (combOnChunk cfg st' t' m).2) <+: annS (combFold cfg { innerSource := os } (P ++ C))
+        ∧ (N0 ++ annN (combOnChunk cfg st' t' m).2) <+: annN (combFold cfg { innerSource := os } (P ++ C))
+        ∧ (∀ o, m.orig = some o → ∀ kk, o.name = some kk → kk < st'.nameIndexValueMapping.length) := by
+  intro t' mm hmem
+  obtain ⟨dP, dC⟩ := (declOK_append P C 0 0).1 hdecl
+  obtain ⟨k1, k2⟩ := combEnd_inv cfg hI P { innerSource := os } [] [] [] (kinv_init cfg os) dP
+  simp only [List.nil_append] at k1 k2
+  obtain ⟨k, c, hkmem, hrec⟩ := combEnd_rec cfg hI P { innerSource := os } ⟨rfl, rfl, rfl, rfl⟩ hP honce
+  have hT : (os.or c).getD [] = Tin := hTin k c hkmem
+  simp only at hrec
+  rw [hT] at hrec
+  have hR := hrec hgl
+  have hfinS : annS (combFold cfg { innerSource := os } (P ++ C)) = annS (combFold cfg { innerSource := os } P) ++ annS (combFold cfg (combEnd cfg { innerSource := os } P) C) := by
+    rw [combFold_append, annS_append]
+  have hfinN : annN (combFold cfg { innerSource := os } (P ++ C)) = annN (combFold cfg { innerSource := os } P) ++ annN (combFold cfg (combEnd cfg { innerSource := os } P) C) := by
+    rw [combFold_append, annN_append]
+  rw [hfinS, hfinN]
+  rw [combFold_append] at hmem
+  rcases List.mem_append.1 hmem with hmem | hmem
+  · exfalso
+    have := mem_keys _ t' mm hmem
+    rw [combFold_keys] at this
+    unfold evsKeys at this
+    obtain ⟨e, he, hk⟩ := List.mem_filterMap.1 this
+    have := hP e he
+    cases e with
+    | chunk tt m0 => simp [Ev.isChunk] at this
+    | source i s c => simp [Ev.key] at hk
+    | name i nm => simp [Ev.key] at hk
+  · generalize hst1 : combEnd cfg { innerSource := os } P = st1 at *
+    have hdC : DeclOK (annS P).length st1.nameIndexValueMapping.length C := by
+      rw [k2]
+      simpa [annS_length, annN_length] using dC
+    obtain ⟨tt, m, st', S0, N0, b1, b2, b3, b4, b5, b6, b7⟩ :=
+      combFold_chunks cfg C st1 _ _ _ k1 cN hdC t' mm hmem
+    have hR' := innerRec_of_stat st1 st' k _ _ b3 hR
+    have hmdecl := declOK_chunk_mem C _ _ hdC cN tt m b1
+    have hk := mem_keys _ t' mm b5
+    rw [combOnChunk_keys] at hk
+    simp only [List.mem_singleton, Prod.mk.injEq] at hk
+    obtain ⟨rfl, hgl', hgc'⟩ := hk
+    have hisi : st'.innerSourceIndex = (k : Int) := hR'.isi
+    have hkn : (annS P)[k]? = some cfg.innerName := by
+      rcases b2.isi with h0 | ⟨_, h0⟩
+      · rw [hisi] at h0; omega
+      · rw [hisi] at h0; simpa using h0
+    exact ⟨m, st', S0, N0, k, c, b1, hgl', hgc', b2, hR', by rw [b4, k2], hkn, b5, b6, b7,
+      fun o ho kk hkk => by rw [b4]; exact (hmdecl o ho).2 kk hkk⟩
+
+/-- the files the combinator reports, for either column setting -/
+theorem comb_sources_at (cfg : CombCfg) (hI : MapIdxOK cfg.innerMap) (os : Option Text) (P C : List Ev) (Tin : Text)
+    (hP : ∀ e ∈ P, e.isChunk = false) (cN : ∀ e ∈ C, e.isChunk = true) (hdecl : DeclOK 0 0 (P ++ C))
+    (honce : OnceInner cfg.innerName P) (hTin : ∀ k c, Ev.source k cfg.innerName c ∈ P → (os.or c).getD [] = Tin)
+    (hgl : ∀ m ∈ chunkMs (streamSM Tin cfg.innerMap ⟨cfg.columns, false⟩).evs, 1 ≤ m.gl) :
+    ∀ i s cc, Ev.source i s cc ∈ combFold cfg { innerSource := os } (P ++ C) →
+      (∃ j, Ev.source j s cc ∈ P ∧ s ≠ cfg.innerName)
+      ∨ (s = cfg.innerName ∧ ∃ k c, Ev.source k cfg.innerName c ∈ P ∧ cc = os.or c)
+      ∨ (∃ j, Ev.source j s cc ∈ (streamSM Tin cfg.innerMap ⟨cfg.columns, false⟩).evs) := by
+  intro i s cc hmem
+  obtain ⟨dP, dC⟩ := (declOK_append P C 0 0).1 hdecl
+  obtain ⟨k1, k2⟩ := combEnd_inv cfg hI P { innerSource := os } [] [] [] (kinv_init cfg os) dP
+  simp only [List.nil_append] at k1 k2
+  obtain ⟨k, c, hkmem, hrec⟩ := combEnd_rec cfg hI P { innerSource := os } ⟨rfl, rfl, rfl, rfl⟩ hP honce
+  have hT : (os.or c).getD [] = Tin := hTin k c hkmem
+  simp only at hrec
+  rw [hT] at hrec
+  have hR := hrec hgl
+  rw [combFold_append] at hmem
+  rcases List.mem_append.1 hmem with hmem | hmem
+  · obtain ⟨j, j1, j2⟩ := combFold_ann_sources cfg P _ hP i s cc hmem
+    exact Or.inl ⟨j, j1, j2⟩
+  · generalize hst1 : combEnd cfg { innerSource := os } P = st1 at *
+    have hdC : DeclOK (annS P).length st1.nameIndexValueMapping.length C := by
+      rw [k2]
+      simpa [annS_length, annN_length] using dC
+    rcases combFold_chunks_sources cfg C st1 _ _ _ k1 cN hdC i s cc hmem with ⟨q1, q2⟩ | q
+    · exact Or.inr (Or.inl ⟨q1, k, c, hkmem, by rw [q2, hR.isrc]⟩)
+    · rw [hR.pairs] at q
+      obtain ⟨j, hj⟩ := annSC_mem _ s cc q
+      exact Or.inr (Or.inr ⟨j, hj⟩)
+
 end Rs
